@@ -352,4 +352,169 @@ theorem cleanLoop_force_events (yes : Path → Bool) (L : List Path) (fs : FTree
   | nil => rfl
   | cons p ps ih => simp [cleanLoop, ih]
 
+/-! ### `pmatch` on literal patterns -/
+
+/-- A character without a meaning in `fnmatch` patterns and different from the separator. -/
+def PlainChar (c : Char) : Prop := c ≠ '*' ∧ c ≠ '?' ∧ c ≠ '[' ∧ c ≠ sep
+
+/-- A path component that `PurePosixPath(pattern)` keeps and `fnmatch.translate` reads literally. -/
+def PlainName (n : Name) : Prop := n ≠ [] ∧ n ≠ ['.'] ∧ ∀ c ∈ n, PlainChar c
+
+/-- A component of a real path: non-empty, without separator. -/
+def CompName (n : Name) : Prop := n ≠ [] ∧ ∀ c ∈ n, c ≠ sep
+
+def lit1 (c : Char) : RItem := .one (.lit c)
+
+theorem tokenize_literal (s : List Char) (hs : ∀ c ∈ s, c ≠ '*' ∧ c ≠ '?' ∧ c ≠ '[') :
+    ∀ fuel, s.length ≤ fuel → tokenize fuel s false = s.map fun c => some (.lit c) := by
+  induction s with
+  | nil => intro fuel _; cases fuel <;> simp [tokenize]
+  | cons c cs ih =>
+    intro fuel hf
+    cases fuel with
+    | zero => simp at hf
+    | succ f =>
+      obtain ⟨h1, h2, h3⟩ := hs c List.mem_cons_self
+      have := ih (fun x hx => hs x (List.mem_cons_of_mem _ hx)) f (by simpa using hf)
+      simp [tokenize, h1, h2, h3, this]
+
+theorem takeFixed_map_some (l : List CM) : takeFixed (l.map some) = (l, []) := by
+  induction l with
+  | nil => simp [takeFixed]
+  | cons m ms ih => simp [takeFixed, ih]
+
+theorem translate_literal (s : List Char) (hs : ∀ c ∈ s, c ≠ '*' ∧ c ≠ '?' ∧ c ≠ '[') :
+    translate s = s.map lit1 := by
+  have key : tokenize (s.length + 1) s false = (s.map CM.lit).map some := by
+    rw [tokenize_literal s hs _ (Nat.le_succ _)]; simp
+  simp only [translate, key, takeFixed_map_some]
+  simp [groupStars, lit1]
+
+theorem matchItems_literal (l : List Char) (rest : List RItem) (s : List Char) :
+    matchItems (l.map lit1 ++ rest) (l ++ s) = matchItems rest s := by
+  induction l with
+  | nil => simp
+  | cons c cs ih => simp [lit1, matchItems, CM.test] at ih ⊢; exact ih
+
+theorem tryFrom_isEmpty (s : List Char) (hs : ∀ c ∈ s, c ≠ sep) : tryFrom (fun x => x.isEmpty) s = true := by
+  induction s with
+  | nil => simp [tryFrom]
+  | cons c cs ih =>
+    have := ih (fun x hx => hs x (List.mem_cons_of_mem _ hx))
+    have hc := hs c List.mem_cons_self
+    simp [tryFrom, this, hc]
+
+theorem matchItems_plus (x : Name) (hx : CompName x) : matchItems [.plus] x = true := by
+  obtain ⟨hne, hs⟩ := hx
+  cases x with
+  | nil => exact absurd rfl hne
+  | cons c cs =>
+    have := tryFrom_isEmpty cs (fun y hy => hs y (List.mem_cons_of_mem _ hy))
+    have hc := hs c List.mem_cons_self
+    simp [matchItems, this, hc]
+
+theorem splitSlash_ne_nil (s : List Char) : splitSlash s ≠ [] := by
+  cases s with
+  | nil => simp [splitSlash]
+  | cons c cs =>
+    unfold splitSlash
+    split
+    · simp
+    · split <;> simp
+
+theorem splitSlash_append (c : Name) (hc : ∀ x ∈ c, x ≠ sep) (R : List Char) (h : Name) (t : List Name)
+    (hR : splitSlash R = h :: t) : splitSlash (c ++ R) = (c ++ h) :: t := by
+  induction c with
+  | nil => simpa using hR
+  | cons a c ih =>
+    have ha : ¬ a = sep := hc a List.mem_cons_self
+    have := ih (fun x hx => hc x (List.mem_cons_of_mem _ hx))
+    simp [splitSlash, ha, this]
+
+theorem splitSlash_pathStr (comps : List Name) (hc : ∀ n ∈ comps, ∀ x ∈ n, x ≠ sep) :
+    splitSlash (comps.flatMap fun c => sep :: c) = [] :: comps := by
+  induction comps with
+  | nil => simp [splitSlash]
+  | cons c cs ih =>
+    have h1 := ih (fun n hn => hc n (List.mem_cons_of_mem _ hn))
+    have h2 := splitSlash_append c (hc c List.mem_cons_self) _ _ _ h1
+    simp [List.flatMap_cons, splitSlash, h2]
+
+theorem pathStr_ne_nil (p : Path) (hp : p ≠ []) : pathStr p = p.flatMap fun c => sep :: c := by
+  cases p with
+  | nil => exact absurd rfl hp
+  | cons a b => rfl
+
+theorem parsePattern_asPosix (comps : List Name) (hne : comps ≠ [])
+    (hc : ∀ n ∈ comps, n ≠ [] ∧ n ≠ ['.'] ∧ ∀ x ∈ n, x ≠ sep) :
+    parsePattern (asPosix comps) = (true, comps) := by
+  unfold parsePattern asPosix
+  rw [pathStr_ne_nil comps hne, splitSlash_pathStr comps (fun n hn => (hc n hn).2.2)]
+  congr 1
+  · cases comps with
+    | nil => exact absurd rfl hne
+    | cons a b => simp
+  · rw [List.filter_cons]
+    simp only [List.isEmpty_nil, Bool.not_true, Bool.false_and, Bool.false_eq_true, ↓reduceIte]
+    apply List.filter_eq_self.2
+    intro n hn
+    obtain ⟨h1, h2, _⟩ := hc n hn
+    simp [h1, h2]
+
+theorem compileComps_literal_star (pre : List Name) (hp : ∀ n ∈ pre, PlainName n) :
+    compileComps (pre ++ [['*']]) = (pre.flatMap fun c => (c ++ [sep]).map lit1) ++ [.plus] := by
+  induction pre with
+  | nil => simp [compileComps]
+  | cons c cs ih =>
+    have hih := ih (fun n hn => hp n (List.mem_cons_of_mem _ hn))
+    obtain ⟨hne, _, hpl⟩ := hp c List.mem_cons_self
+    have hstar : ¬ c = ['*'] := by
+      intro e; subst e
+      exact (hpl '*' (by simp)).1 rfl
+    have htr : translate (c ++ [sep]) = (c ++ [sep]).map lit1 := by
+      apply translate_literal
+      intro x hx
+      rcases List.mem_append.1 hx with h | h
+      · exact ⟨(hpl x h).1, (hpl x h).2.1, (hpl x h).2.2.1⟩
+      · simp only [List.mem_singleton] at h; subst h; decide
+    cases hcs : cs ++ [['*']] with
+    | nil => simp at hcs
+    | cons a b =>
+      rw [List.cons_append, hcs, compileComps]
+      · rw [← hcs, hih]
+        simp [hstar, htr]
+      · simp
+
+theorem flatMap_rotate (cs : List Name) :
+    sep :: (cs.flatMap fun c => c ++ [sep]) = (cs.flatMap fun c => sep :: c) ++ [sep] := by
+  induction cs with
+  | nil => simp
+  | cons c cs ih =>
+    simp only [List.flatMap_cons, List.append_assoc, List.cons_append, List.nil_append]
+    rw [← ih]
+
+/-- `PurePosixPath("<dir>/<x>").match("<dir>/*")` is true when the components of `dir` have no meaning as a pattern. -/
+theorem pmatch_dir_star (dir : Path) (hdir : ∀ n ∈ dir, PlainName n) (x : Name) (hx : CompName x) :
+    pmatch (dir ++ [x]) (asPosix (dir ++ [['*']])) = true := by
+  have hcomps : ∀ n ∈ dir ++ [['*']], n ≠ [] ∧ n ≠ ['.'] ∧ ∀ y ∈ n, y ≠ sep := by
+    intro n hn
+    rcases List.mem_append.1 hn with h | h
+    · obtain ⟨h1, h2, h3⟩ := hdir n h
+      exact ⟨h1, h2, fun y hy => (h3 y hy).2.2.2⟩
+    · simp only [List.mem_singleton] at h; subst h
+      refine ⟨by simp, by decide, ?_⟩
+      intro y hy; simp only [List.mem_singleton] at hy; subst hy; decide
+  unfold pmatch
+  rw [parsePattern_asPosix _ (by simp) hcomps]
+  simp only [↓reduceIte, compile]
+  rw [compileComps_literal_star dir hdir, pathStr_ne_nil _ (by simp)]
+  have h1 : ([RItem.one (CM.lit sep)] ++ ((dir.flatMap fun c => (c ++ [sep]).map lit1) ++ [RItem.plus]))
+      = ((dir.flatMap fun c => sep :: c) ++ [sep]).map lit1 ++ [RItem.plus] := by
+    rw [← flatMap_rotate]
+    simp [lit1, List.map_flatMap]
+  rw [h1]
+  have h2 : ((dir ++ [x]).flatMap fun c => sep :: c) = ((dir.flatMap fun c => sep :: c) ++ [sep]) ++ x := by simp
+  rw [h2, matchItems_literal]
+  exact matchItems_plus x hx
+
 end Pytask.Clean
